@@ -224,7 +224,7 @@ func (r *Ref) evalValue(v reflect.Value, sub []Sel, path []string) interface{} {
 			}
 			return nil
 		}
-		return r.evalObject(t.Name(), v, "", sub, path)
+		return r.evalObject(TypeName(t), v, "", sub, path)
 	default:
 		return jsonOf(v.Interface())
 	}
